@@ -2,6 +2,11 @@ import FFVerif.Props.C10
 import FFVerif.Props.C10Asm
 import FFVerif.Props.C07
 import FFVerif.Pins.pinFrequencyShifts
+import FFVerif.Pins.C10_secondOrder_source_shape
+import FFVerif.Pins.C10_secondOrderFF_source_shape
+import FFVerif.Pins.C07_body_cache_filter_function
+import FFVerif.Pins.C07_body_get_filter_function
+import FFVerif.Pins.C07_body_get_control_matrix
 #print axioms FFVerif.C10.nested_global
 #print axioms FFVerif.C10.secondOrderEntry_unfold
 #print axioms FFVerif.C10.secondOrder_case1
@@ -17,8 +22,6 @@ import FFVerif.Pins.pinFrequencyShifts
 #print axioms FFVerif.C10.nested_conj
 #print axioms FFVerif.C10.ff2_plus_adjoint
 #print axioms FFVerif.C10.secondOrderEntry_plus_adjoint
-#print axioms FFVerif.C10.secondOrder_source_shape
-#print axioms FFVerif.C10.secondOrderFF_source_shape
 #print axioms FFVerif.C10.secondOrderFF_entry
 #print axioms FFVerif.C10.secondOrderFF_plus_adjoint_of_segments
 #print axioms FFVerif.C10.secondOrderStep_plus_adjoint
@@ -28,3 +31,8 @@ import FFVerif.Pins.pinFrequencyShifts
 #print axioms FFVerif.C07.getFF_spec
 #print axioms FFVerif.C07.served_value_is_fresh
 #print axioms FFVerif.Pins.pinFrequencyShifts
+#print axioms FFVerif.C10.secondOrder_source_shape
+#print axioms FFVerif.C10.secondOrderFF_source_shape
+#print axioms FFVerif.C07.body_cache_filter_function
+#print axioms FFVerif.C07.body_get_filter_function
+#print axioms FFVerif.C07.body_get_control_matrix
